@@ -18,7 +18,8 @@ Everything outside the grammar below is a TranslateError (never silently skipped
 
   file    ::= item*      every item is delimited (attributes, visibility, keyword, balanced body); an item that does not
                          belong to the group may not MENTION a type of the group (so no other impl, function or macro
-                         can touch the private fields or add / override a method); `mod x { .. }` is rejected
+                         can touch the private fields or add / override a method); `mod x { .. }` is rejected; the
+                         other .rs files of the crate (child modules, which see private fields) may not mention one either
   pinned  ::= `use dasp_ring_buffer as ring_buffer;`  `use core::cell::RefCell;`  the two `type Rc<T>` aliases
               `fn next(&mut self) -> Self::Frame;` of trait Signal; the fields of every struct of the group;
               the SET of impls of the group's types and the SET of methods of each (a new, missing or overridden
@@ -1926,6 +1927,29 @@ def sensitivity(src, ring_src, group):
     return res
 
 
+def check_siblings(src_path, group):
+    """the other files of the crate are child modules of lib.rs: they can see the private fields of its structs and could
+    add impls for them -- none of them may mention a type of the group.  (For a scratch copy of lib.rs alone, the
+    siblings are those of /repo's dasp_signal.)"""
+    d = os.path.dirname(os.path.abspath(src_path))
+    files = []
+    for root in ([d] if os.path.isdir(os.path.join(d, "window")) or len([f for f in os.listdir(d) if f.endswith(".rs")]) > 1
+                 else [os.path.dirname(DEFAULT_SRC)]):
+        for dp, _, fs in os.walk(root):
+            files += [os.path.join(dp, f) for f in fs if f.endswith(".rs") and os.path.abspath(os.path.join(dp, f)) != os.path.abspath(src_path)
+                      and not (root != d and f == "lib.rs" and dp == root)]
+    mine = set(GROUP_TYPES[group])
+    for f in sorted(files):
+        try:
+            toks = lex(open(f).read())
+        except (TranslateError, OSError) as e:
+            raise TranslateError(f"{f}: cannot be read / lexed: {e}")
+        hit = sorted({t.t for t in toks if t.k == "id"} & mine)
+        if hit:
+            raise TranslateError(f"{f} mentions {hit}: a child module of dasp_signal can reach the private state of the adaptor; outside the modelled items")
+    return len(files)
+
+
 def generate(group, src_path=None, ring_path=None, out_path=None):
     """translate and write coq/gen/{BufferedGen,ForkGen}.v (only if changed). -> (names, changed?)"""
     src_path, ring_path = src_path or DEFAULT_SRC, ring_path or DEFAULT_RING
@@ -1934,6 +1958,7 @@ def generate(group, src_path=None, ring_path=None, out_path=None):
         ring_src = open(ring_path).read()
     except OSError as e:
         raise TranslateError(f"cannot read the source: {e}")
+    check_siblings(src_path, group)
     text, names = translate_text(src, ring_src, group)
     changed = R.write_if_changed(out_path or OUT[group], text)
     return names, changed
